@@ -56,10 +56,10 @@ Init == /\ MemInit
         /\ budget = [t \in Threads |-> IF t = Writer THEN MaxWrites ELSE MaxReads]
         /\ freeExt = Ext
         /\ w = W0 /\ it = It0
-        /\ last = [t |-> -1, k |-> "init", lab |-> "init", v |-> 0, ok |-> 1]
+        /\ last = [t |-> -1, k |-> "init", lab |-> "init", v |-> 0, ok |-> 1, n |-> 0]
 
 Goto(t, l) == pc' = [pc EXCEPT ![t] = l]
-Acc(t, k, lab, v, ok) == last' = [t |-> t, k |-> k, lab |-> lab, v |-> v, ok |-> ok]
+Acc(t, k, lab, v, ok) == last' = [t |-> t, k |-> k, lab |-> lab, v |-> v, ok |-> ok, n |-> last.n + 1]    \* n: access counter
 Return(t, r, v) == lin' = MonRet(lin, t, r, v) /\ Goto(t, "idle")
 Locked(s) == [s EXCEPT !.lk = 1]
 Unlocked(s) == [s EXCEPT !.lk = 0]
